@@ -73,9 +73,9 @@ def applications(chk, d, parts, seed, timeout=1500, parallel=8):
 def family(chk, d, tier, seed):
     """Inputs of class "call": one text per exported application (compiled with -Fao)."""
     if tier == "quick":
-        parts = [{"Pats": "{1}", "Ovs": '{"none"}', "Stride": 4},
-                 {"Pats": "{2}", "Ovs": '{"none"}', "Stride": 23},
-                 {"Pats": "{1, 2}", "Ovs": '{"arity", "types", "ret"}', "Stride": 61}]
+        parts = [{"Pats": "{1}", "Ovs": '{"none"}', "Stride": 6},
+                 {"Pats": "{2}", "Ovs": '{"none"}', "Stride": 29},
+                 {"Pats": "{1, 2}", "Ovs": '{"arity", "types", "ret"}', "Stride": 83}]
         seed = 0
     else:
         parts = [{"Pats": "{%d}" % p, "Ovs": '{"%s"}' % o, "Stride": 1 if o == "none" else 4}
